@@ -26,6 +26,9 @@ pub struct C11Case {
     pub stray_ids: Vec<(usize, u64, u8, u64, u8)>,
     /// puts whose PDUs are replayed after their end (final-state clauses do not apply to them)
     pub replayed_puts: Vec<usize>,
+    /// the fault script is one lost datagram per directed link: acknowledged Puts must still succeed (C02)
+    #[serde(default)]
+    pub bounded_loss: bool,
 }
 
 fn fail(tr: &Trace, key: &str, msg: String) -> Fail {
@@ -105,13 +108,13 @@ pub fn check_isolation(case: &C11Case, tr: &Trace) -> Result<Vec<&'static str>, 
                 }
             }
         }
-        if lossless {
+        if lossless || (case.bounded_loss && !p.unack) {
             let ok_r = tr.finished_inds(p.to, id).iter().any(|(_, f)| is_success(f));
             if !ok_r {
-                return Err(fail(tr, "lossless-put-not-delivered", format!("loss-free link: Put #{k} ({id}, {} mode) was not reported delivered by its receiver", if p.unack { "unack" } else { "ack" })));
+                return Err(fail(tr, "lossless-put-not-delivered", format!("loss-free link (or one loss per link, acknowledged mode): Put #{k} ({id}, {} mode) was not reported delivered by its receiver", if p.unack { "unack" } else { "ack" })));
             }
             if !p.unack && !tr.finished_inds(p.from, id).iter().any(|(_, f)| is_success(f)) {
-                return Err(fail(tr, "lossless-put-not-delivered", format!("loss-free link: Put #{k} ({id}) was not reported delivered by its sender")));
+                return Err(fail(tr, "lossless-put-not-delivered", format!("loss-free link (or one loss per link, acknowledged mode): Put #{k} ({id}) was not reported delivered by its sender")));
             }
             if !case.replayed_puts.contains(&k) && tr.file_at(p.to, &p.dst_name).map(|c| c != src).unwrap_or(true) {
                 return Err(fail(tr, "lossless-put-wrong-final-file", format!("loss-free link: destination of Put #{k} does not hold its content at the end")));
@@ -198,11 +201,15 @@ impl Part for C11Part {
     }
 }
 
-pub fn build(seed: u64, lossy: bool, with_strays: bool, with_replay: bool) -> C11Case {
+pub fn build(seed: u64, lossy: bool, with_strays: bool, with_replay: bool, bounded_loss: bool) -> C11Case {
     let mut rng = Prng::new(seed);
     let n_ent = 2 + rng.below(2) as usize;
     let idw = *rng.pick(&[1u8, 2, 4, 8]);
     let seqw = *rng.pick(&[2u8, 4, 8]);
+    // every daemon numbers its own transactions: in half of the cases all counters start at the same value, so that
+    // transactions of different entities carry the same sequence number and differ in the source entity only
+    let common_start = rng.below(200);
+    let same_start = rng.chance(1, 2);
     let mut entities = vec![];
     for i in 0..n_ent {
         let cfg = CfgSpec {
@@ -217,7 +224,7 @@ pub fn build(seed: u64, lossy: bool, with_strays: bool, with_replay: bool) -> C1
             nak: nak_variants()[rng.below(4) as usize].clone(),
             handlers: vec![],
         };
-        entities.push(EntitySpec { id: 1 + i as u64, id_width: idw, present: true, cfg, start_seq: rng.below(200), seq_width: seqw });
+        entities.push(EntitySpec { id: 1 + i as u64, id_width: idw, present: true, cfg, start_seq: if same_start { common_start } else { rng.below(200) }, seq_width: seqw });
     }
     let mut sc = Scenario {
         seed: rng.next(),
@@ -272,6 +279,17 @@ pub fn build(seed: u64, lossy: bool, with_strays: bool, with_replay: bool) -> C1
                     } else if r < p + 7 {
                         sc.faults.push(Fault { from: a, to: b, ordinal: ord, kind: FaultKind::Dup { extra_ms: rng.below(40) } });
                     }
+                }
+            }
+        }
+    }
+    if bounded_loss {
+        // exactly one lost datagram per directed link, early in the exchange: every acknowledged transfer must recover (C02),
+        // and the hit transaction stays open for seconds - across the daemon's cleanup ticks - while others come and go
+        for a in 0..n_ent {
+            for b in 0..n_ent {
+                if a != b {
+                    sc.faults.push(Fault { from: a, to: b, ordinal: rng.below(14) as u32, kind: FaultKind::Drop });
                 }
             }
         }
@@ -347,7 +365,7 @@ pub fn build(seed: u64, lossy: bool, with_strays: bool, with_replay: bool) -> C1
         }
         replayed_puts.push(0);
     }
-    C11Case { sc, stray_ids, replayed_puts }
+    C11Case { sc, stray_ids, replayed_puts, bounded_loss }
 }
 
 fn rng_u(seed: u64, j: u64) -> u64 {
@@ -358,8 +376,8 @@ fn rng_bool(seed: u64, j: u64) -> bool {
 }
 
 pub fn run(ctx: &mut Ctx) {
-    ctx.rule = "seeded generation: 2-3 real daemons (id widths 1/2/4/8, different configurations per daemon), 2..8 (one in four: up to 24) Puts issued within 30 ms in any direction, acknowledged and unacknowledged, sizes \
-{0,1,seg,3seg+5,6seg}, contents tagged per transaction, destinations in per-sender directories; four families: loss-free, loss-free + strays, lossy (per-datagram loss 1..20 %, delays, duplicates on every link) + strays, and \
+    ctx.rule = "seeded generation: 2-3 real daemons (id widths 1/2/4/8, different configurations per daemon), 2..8 (one in four: up to 24) Puts issued within 30 ms in any direction (in half of the scenarios all daemons number their transactions from the same start value), acknowledged and unacknowledged, sizes \
+{0,1,seg,3seg+5,6seg}, contents tagged per transaction, destinations in per-sender directories; six families: loss-free, loss-free + strays, one lost datagram per directed link (acknowledged Puts must still succeed) with and without strays, lossy (per-datagram loss 1..20 %, delays, duplicates on every link) + strays, and \
 loss-free + strays + replay of a random subset of the PDUs of Put #0 after it has ended, plus reflections of its PDUs back to the entity that emitted them around the end of that transaction. Strays (1..12 per scenario): ACK/NAK/Finished for a sender that does not exist, PDUs naming entity 77 (no transport), Metadata / FileData / EOF / \
 Prompt / ACK(Finished) with fresh ids from a known peer. Non-trivial = two transactions overlapped in time on one daemon, or at least one stray PDU was routed; distinct by scenario."
         .into();
@@ -371,15 +389,17 @@ Prompt / ACK(Finished) with fresh ids from a known peer. Non-trivial = two trans
     let part = C11Part;
     ctx.run_known_replays(&part);
     let seed = ctx.seed;
-    for (name, lossy, strays, replay, nq, nt) in [
-        ("loss-free", false, false, false, 1500u64, 15_000u64),
-        ("loss-free+strays", false, true, false, 2500, 30_000),
-        ("lossy+strays", true, true, false, 2500, 30_000),
-        ("strays+replay", false, true, true, 1000, 10_000),
+    for (name, lossy, strays, replay, bounded, nq, nt) in [
+        ("loss-free", false, false, false, false, 1500u64, 15_000u64),
+        ("loss-free+strays", false, true, false, false, 2500, 30_000),
+        ("lossy+strays", true, true, false, false, 2500, 30_000),
+        ("strays+replay", false, true, true, false, 1000, 10_000),
+        ("one-loss-per-link", false, false, false, true, 2500, 30_000),
+        ("one-loss-per-link+strays", false, true, false, true, 1500, 20_000),
     ] {
         ctx.section = name.into();
         let n = ctx.tier.pick(nq, nt);
-        ctx.drive_indexed(&part, n, false, |i| build(mix(seed ^ hash_str(name), i), lossy, strays, replay));
+        ctx.drive_indexed(&part, n, false, |i| build(mix(seed ^ hash_str(name), i), lossy, strays, replay, bounded));
     }
     ctx.section.clear();
 }
